@@ -121,11 +121,11 @@ CHECKS["C11"] = {'design_ref': 'DESIGN.md section 6 C11',
          "here: the clause 'every datagram the library emits carries version 1 and the connection id owed to "
          "that direction' (connection-level; only the per-header serialiser is checked)."}
 
-PENDING_C14 = {'design_ref': 'DESIGN.md section 6 C14',
+CHECKS["C14"] = {'design_ref': 'DESIGN.md section 6 C14',
  'note': 'Trusted: as C16. No axioms. Header constants re-read from the compiled crate on every run. The '
-         'search and ceiling checks of the predicate apply only while the op discipline (outcomes for sizes '
-         'handed out, consistent with some P; no payload above the ceiling) holds on the observed trace; '
-         'well-formedness, probe-midpoint and cooldown checks apply always. Partial: see text.',
+         'search checks of the predicate apply only while the op discipline (outcomes for sizes handed out, '
+         'consistent with some P) holds on the observed trace; well-formedness, ceiling, probe-midpoint and '
+         'cooldown checks apply to every observation, and a PANIC is never accepted. Partial: see text.',
  'technique': 'Coq proof (induction over op lists, lia over div/mod 2^16) + differential correspondence '
               'model vs impl',
  'text': 'Partial: this check covers the path-MTU SEARCH and the u16 SIZE ARITHMETIC of src/mtu.rs '
@@ -133,19 +133,18 @@ PENDING_C14 = {'design_ref': 'DESIGN.md section 6 C14',
          'delivering exactly the payload sizes <= P, min_ss <= P <= max_ss is invariant; each probe outcome '
          'at least halves max_ss - min_ss and after ceil(log2(max_ss0 - min_ss0)) + 1 outcomes (16 for any '
          'u16 interval) min_ss = max_ss = P and is_probing = false; next_segment_size hands out mss or the '
-         'probe midpoint, never above max_ss, above mss only at cooldown 0; min_ss <= max_ss <= 65535 always '
-         'and next_probe overflows u16 exactly at min_ss = max_ss = 65535 (refutation witness: '
-         'on_payload_delivered(65535)); max_ss and every size handed out stay <= the ceiling implied by the '
-         'configured link MTU PROVIDED no on_payload_delivered(n) with n above that ceiling occurs - the '
-         'code feeds it the size of payloads received from the peer, and a refutation witness (new(1500, '
-         "ipv4); delivered 5000 gives mss 5000 > 1452) records that the unconditional clause 'whatever sizes "
-         "the peer uses' is FALSE of this component (D3; reproduced on the real code by the mtu_d3 cases, "
-         'reported, not yet counted as a violation or a known finding). Tied to the real SegmentSizes '
-         '(public API) by differential runs: scripted binary searches for link MTUs 0..1500 x both families '
-         'x boundary and random P, structured and hostile op lists (usize values that truncate as u16); the '
-         'extracted predicates c14_ok / c14_search_ok, proved true of every model trace, are evaluated on '
-         "the implementation's own traces. NOT covered here (connection level, later): sizes of emitted "
-         'datagrams, at most one outstanding probe and it is the newest segment, data intact on a '
+         'probe midpoint, never above max_ss, above mss only at cooldown 0; min_ss <= max_ss and, WHATEVER '
+         'sizes are reported delivered or failed (any usize, in particular the sizes of payloads received '
+         'from the peer), max_ss and every size handed out stay <= the ceiling implied by the configured '
+         'link MTU (<= 65487), so the one u16 overflow of next_probe (min_ss = max_ss = 65535) is '
+         'unreachable and no op list panics. (Before the repair afb839c of D3 the ceiling clause was false: '
+         'new(1500, ipv4); delivered 5000 gave mss 5000 > 1452, and delivered 65535 panicked; both are now '
+         'regression cases.) Tied to the real SegmentSizes (public API) by differential runs: scripted '
+         'binary searches for link MTUs 0..1500 x both families x boundary and random P, structured and '
+         'hostile op lists (usize values that truncate as u16), single peer payloads right after new; the '
+         'extracted predicates c14_ok / c14_search_ok / c14_d3_ok, proved true of every model trace, are '
+         "evaluated on the implementation's own traces. NOT covered here (connection level, later): sizes of "
+         'emitted datagrams, at most one outstanding probe and it is the newest segment, data intact on a '
          'black-holing path (D1, KF1).'}
 
 ALL = ["C%02d" % i for i in range(1, 20)]
